@@ -3,7 +3,7 @@
 From Coq Require Import List NArith ZArith Bool Arith Lia.
 From SK Require Import lib.Tok lib.LGraph lib.Mono.
 From SK Require model.C06_Model model.C11_Model.
-From SK Require Import model.C03_Model model.C05_Model proof.C05_Proof proof.C05_Glue proof.C05_Pipe proof.C05_Prep proof.C05_Comp proof.C05_Main proof.C05_Order proof.C05_Sub proof.C05_Set proof.C05_Result proof.C05_AllStrat proof.C05_PrepOrder proof.C05_Final.
+From SK Require Import model.C03_Model model.C05_Model proof.C05_Proof proof.C05_Glue proof.C05_Pipe proof.C05_Prep proof.C05_Comp proof.C05_Main proof.C05_Order proof.C05_Sub proof.C05_Set proof.C05_Result proof.C05_AllStrat proof.C05_PrepOrder proof.C05_Final proof.C05_Default.
 From SK Require Import lib.C06_Spec proof.C06_Comp proof.C06_Main.
 Import ListNotations.
 
@@ -291,4 +291,29 @@ Proof.
   assert (S : side_okb_c ds_host ds_p = true) by (vm_compute; reflexivity).
   split; [exact S|]. split; [vm_compute; reflexivity|]. split; [vm_compute; reflexivity|].
   exact (proj1 (glued_comp_subset_all ds_host ds_p (side_okb_c_ok _ _ S))).
+Qed.
+
+(** ** default configuration: halogen exchange (no hydrogen atoms in the template), template and substrate renumbered and
+    written backwards; the _explicit_h stage is on *)
+Example pipeline_default_nonvacuous :
+  noHb hx_tpl = true /\ pipeline false false true 0%N hx_host hx_tpl = Some (glued_of 0%N hx_host (prep_default false hx_tpl)) /\
+  length (glued_of 0%N hx_host (prep_default false hx_tpl)) = 1%nat /\
+  (forall T, In T (glued_of 0%N hx_host (prep_default false hx_tpl)) ->
+     exists T'', In T'' (glued_of 0%N hx_host_r2 (prep_default false hx_tpl_r2)) /\ obs_eq (relabel sz_pi T) T'').
+Proof.
+  assert (HP : forall X : its, (forallb (fun p : N * inode => match i_hp (snd p) with None => true | Some [] => true | _ => false end) (gnodes X) = true) ->
+               forall k a, In (k, a) (gnodes X) -> i_hp a = None \/ i_hp a = Some []).
+  { intros X H k a I. rewrite forallb_forall in H. specialize (H _ I). simpl in H. destruct (i_hp a) as [[|x l]|]; [right; reflexivity | discriminate | left; reflexivity]. }
+  assert (A1 : nodupb (node_ids hx_tpl) = true) by (vm_compute; reflexivity).
+  assert (A2 : noHb hx_tpl = true) by (vm_compute; reflexivity).
+  assert (A3 : nohp hx_tpl) by (unfold nohp; apply (HP hx_tpl); vm_compute; reflexivity).
+  assert (A4 : simple_edgesb (gedges hx_tpl) = true) by (vm_compute; reflexivity).
+  assert (B1 : nodupb (node_ids hx_tpl_r2) = true) by (vm_compute; reflexivity).
+  assert (B2 : noHb hx_tpl_r2 = true) by (vm_compute; reflexivity).
+  assert (B3 : nohp hx_tpl_r2) by (unfold nohp; apply (HP hx_tpl_r2); vm_compute; reflexivity).
+  assert (B4 : simple_edgesb (gedges hx_tpl_r2) = true) by (vm_compute; reflexivity).
+  destruct (pipeline_default_set_invariant 0%N sz_sg sz_pi false hx_host hx_host_r2 hx_tpl hx_tpl_r2 (or_introl eq_refl) sz_sg_inj sz_pi_inj
+              A1 A2 A3 A4 B1 B2 B3 B4 hx_same_r hx_tpl_same) as (P1 & _ & P3).
+  split; [exact A2|]. split; [exact P1|]. split; [vm_compute; reflexivity|].
+  apply P3; apply side_okb_c_ok; vm_compute; reflexivity.
 Qed.
